@@ -15,6 +15,12 @@ CLAIMED = {
  'C06': dict(cat='exploration', ref='5/C06', tech=SIM + 'virtual clock driven by engine-thread node ticks; oracle on limit-hook events and node counts after the deadline',
       text='Timed searches over the whole time-control space under a virtual clock in which elapsed time is an exact function of the engine thread\'s own work; checks 1<=soft<=hard<=budget for every limit pair and that at most one polling interval of main-search nodes follows the deadline, stop, or ponderhit with exhausted limits.',
       note='Allowance is expressed in engine-thread main-search node ticks (derived from the code\'s polling structure), helpers are arbitrarily fast/slow, no clock faults in this class.'),
+ 'C12': dict(cat='fault_enumeration', ref='5/C12', tech='deterministic simulation of the tablebase generator under a virtual clock with enumerated abort points (stop request / expired time limit injected at every sim step of the generation), then hash traffic; independent retrograde DTM oracle',
+      text='For every 3-man pawnless class and both colour assignments: the un-aborted generation (both storage back ends) is compared with an independent distance-to-mate oracle on EVERY legal placement and both sides to move, and EVERY abort point of the generation (each clock read / iteration boundary, both as stop and as expired time limit) is taken once, followed by hash traffic, a sweep of probeDTM and a regeneration. 4-man classes are sampled (2 in quick, all 20 in thorough).',
+      note='Trusted: sim/dtm_oracle.cpp (own move generator and retrograde analysis, cross-checked against published longest mates KQK 10, KRK 16, KBNK 33, KQKR 35); the abort can only land at the generation\'s own polling points (its clock reads and per-iteration stop test), which is where the real asynchronous stop becomes visible to it.'),
+ 'C14': dict(cat='exploration', ref='5/C14', tech=SIM + 'refinement check: probe search after (generated history + Clear Hash) vs. the same probe in a fresh engine process with the same option history, and vs. the same history under another schedule/clock',
+      text='Seeded histories of 1..40 searches of all limit kinds (unrelated positions, earlier positions of the probe game, 3-man roots that build/abort on-demand tables, ucinewgame, option changes), then Clear Hash and a depth- or node-limited probe with one thread; the probe transcript (score lines without time/nps, node counts, bestmove) must equal that of a fresh engine.',
+      note='Probe is restricted to full strength (Strength=1000, no MaxNPS/LimitStrength): reduced-strength play is seeded from the clock at ucinewgame by design. time/nps/hashfull fields and time-triggered currmove/stat lines are not compared.'),
  'C10': dict(cat='exploration', ref='5/C10', tech=SIM + 'PCT-style and random schedulers with bounded unfairness, spurious wake-ups, stalls; safety + bounded-liveness + quiescence oracle',
       text='Control scripts (go/finish, go/stop, ponder/ponderhit, ponder/stop, back-to-back go, Threads changes, quit/EOF during search) with Threads 1..8 and tiny searches; every command is released at a chosen sim step so it meets the engine at every stage; exactly one legal bestmove per go, no simulator deadlock, all threads parked after the last bestmove (wait_idle), all threads joined at exit. Exhaustive bounded pre-emption search is NOT done; PCT sampling is the substitute.',
       note='Liveness judged with step/node budgets under schedulers with a starvation bound; pre-emption only at intercepted sync points, clock reads, stream appends, node ticks.'),
@@ -29,7 +35,7 @@ NA = {
  'C20': 'The constraint solver is a pure function of the constraint system (DESIGN.md section 6).',
 }
 PENDING = {}
-for pid in ['C04', 'C07', 'C08', 'C09', 'C12', 'C13', 'C14', 'C17', 'C18', 'C19']:
+for pid in ['C04', 'C07', 'C08', 'C09', 'C13', 'C17', 'C18', 'C19']:
     PENDING[pid] = 'check designed (DESIGN.md section 5) but not yet built/gated in this tree; not claimed until it passes its determinism and sensitivity gates'
 
 def main():
